@@ -9,10 +9,10 @@ import (
 // on/off combinations the generated calls contained. Reported in the evidence so gaps are visible.
 
 var applicableOpts = map[string][]string{
-	"upd":  {"wt", "um", "rs", "ev", "xa", "chk", "bf", "af", "nw", "mw", "cia", "ccb", "gid", "icb"},
-	"add":  {"wt", "um", "rs", "ev", "chk", "bf", "af", "nw", "mw", "ccb", "gid", "icb"},
-	"del":  {"wt", "ev", "chk", "am"},
-	"vset": {"wt", "um", "rs", "ev", "chk", "bf", "af", "nw", "mw"},
+	"upd":  {"wt", "um", "mum", "rs", "ev", "xa", "chk", "bf", "af", "nw", "mw", "cia", "ccb", "gid", "icb"},
+	"add":  {"wt", "um", "mum", "rs", "ev", "chk", "bf", "af", "nw", "mw", "ccb", "gid", "icb"},
+	"del":  {"wt", "ev", "chk", "am", "am0"},
+	"vset": {"wt", "um", "mum", "rs", "ev", "chk", "bf", "af", "nw", "mw"},
 	"get":  {"rm"},
 	"list": {"rm", "inc"},
 	"vget": {"rm"},
